@@ -168,14 +168,78 @@ pub fn prepare_js(outdir: &str) -> i32 {
 
     let mods = format!("{}/mods", outdir);
     std::fs::create_dir_all(&mods).unwrap();
+    let corpus = js_corpus();
+    // Every compile runs in a child process (chunks of 64, a crashing chunk is retried one by
+    // one): a project that overflows the stack must not take the preparation down with it.
+    let exe = std::env::current_exe().expect("current_exe");
+    let mut index: Vec<serde_json::Value> = vec![];
+    let mut crashed = 0usize;
+    let run_chunk = |lo: usize, hi: usize| -> Option<Vec<serde_json::Value>> {
+        let part = format!("{}/index_{}_{}.json", outdir, lo, hi);
+        let mut child = std::process::Command::new(&exe).arg("prepare-js-chunk").arg(outdir).arg(lo.to_string()).arg(hi.to_string()).stdout(std::process::Stdio::null()).stderr(std::process::Stdio::null()).spawn().ok()?;
+        let t0 = std::time::Instant::now();
+        let st = loop {
+            match child.try_wait().ok()? {
+                Some(st) => break st,
+                None => {
+                    if t0.elapsed() > std::time::Duration::from_secs(30) {
+                        let _ = child.kill();
+                        let _ = child.wait();
+                        return None;
+                    }
+                    std::thread::sleep(std::time::Duration::from_millis(5));
+                }
+            }
+        };
+        if !st.success() {
+            return None;
+        }
+        let v: Vec<serde_json::Value> = serde_json::from_str(&std::fs::read_to_string(&part).ok()?).ok()?;
+        let _ = std::fs::remove_file(&part);
+        Some(v)
+    };
+    let mut lo = 0;
+    while lo < corpus.len() {
+        let hi = (lo + 64).min(corpus.len());
+        match run_chunk(lo, hi) {
+            Some(v) => index.extend(v),
+            None => {
+                for i in lo..hi {
+                    match run_chunk(i, i + 1) {
+                        Some(v) => index.extend(v),
+                        None => crashed += 1,
+                    }
+                }
+            }
+        }
+        lo = hi;
+    }
+    std::fs::write(format!("{}/index.json", outdir), serde_json::to_string_pretty(&index).unwrap()).unwrap();
+    if crashed > 0 {
+        println!("prepare-js: {} project(s) crashed or hung the compiler and were skipped (the C04 check's business)", crashed);
+    }
+    println!("prepare-js: stripped {} runtime files, compiled {} of {} corpus projects", names.len(), index.len(), corpus.len());
+    0
+}
+
+fn js_corpus() -> Vec<Project> {
     let mut corpus = crate::plan::load_corpus(&crate::coord::corpus_path());
     // plus seeded type graphs: named types sharing recursive members, discriminated unions,
     // unprintable (Date / bigint / Map / Set) leaves
     for k in 0..400u64 {
         corpus.push(crate::gen::synthetic_project(0xC16_0000 + k));
     }
+    corpus
+}
+
+/// child of prepare-js: compile projects lo..hi of the jsim corpus, write modules and a partial index
+pub fn prepare_js_chunk(outdir: &str, lo: usize, hi: usize) -> i32 {
+    crate::session::install_panic_hook();
+    crate::coord::silence_stderr();
+    let corpus = js_corpus();
+    let mods = format!("{}/mods", outdir);
     let mut index = vec![];
-    for p in &corpus {
+    for p in &corpus[lo..hi.min(corpus.len())] {
         let fr = fresh_process(&p.files, &p.entry, &p.settings, &Variant { hash_seed: 7, preregister: vec![], repeat: false, diag_first: false });
         if let Some(code) = fr.first.code {
             let full = finalize(&code, "esm", &p.settings.string_formats, &p.settings.number_formats);
@@ -184,7 +248,6 @@ pub fn prepare_js(outdir: &str) -> i32 {
             index.push(serde_json::json!({"id": p.id, "file": file, "string_formats": p.settings.string_formats, "number_formats": p.settings.number_formats, "origin_kind": p.origin_kind}));
         }
     }
-    std::fs::write(format!("{}/index.json", outdir), serde_json::to_string_pretty(&index).unwrap()).unwrap();
-    println!("prepare-js: stripped {} runtime files, compiled {} of {} corpus projects", names.len(), index.len(), corpus.len());
+    std::fs::write(format!("{}/index_{}_{}.json", outdir, lo, hi), serde_json::to_string(&index).unwrap()).unwrap();
     0
 }
